@@ -451,6 +451,26 @@ def main():
                     tags.setdefault(tag, []).extend(sorted(i * NSHARDS + k for i in idx))
             for t in tags:
                 tags[t].sort()
+            # C06 "... and for validation results compared as sets": both sides of every pair of kind "same"
+            # (equal inputs, permuted registration histories) carry the validation result of their settings,
+            # canonicalised as a set by the harness (sorted entries, sorted derive / attribute lists); the two
+            # observed results must be equal.  Like the cross-process comparison this compares two OBSERVED
+            # outputs with each other, no model is involved; a difference is a failing input (tag prop_*)
+            if prop == "C06":
+                bad, nontrivial = [], []
+                for i, l in enumerate(cases):
+                    try:
+                        c = json.loads(l)
+                    except Exception:
+                        continue
+                    v = c.get("validation")
+                    if (c.get("input") or {}).get("pair_kind") == "same" and isinstance(v, list) and len(v) == 2:
+                        if v[0] != v[1]:
+                            bad.append(i)
+                        if str(v[0]).startswith("Err"):
+                            nontrivial.append(i)
+                tags["prop_validation_same"] = bad
+                tags["hyp_validation_errors_compared"] = nontrivial
             if shard_errors:
                 p = write_replay("shard_error", {"kind": "correspondence-broken",
                                                  "obligation": "coqc evaluation of generated case file failed",
